@@ -127,7 +127,7 @@ Do(s, ev) ==
       [] ev.a = "e_resume" -> LET e2 == [ex EXCEPT !.st = StatusByFill(ex)] IN EmitS(s, e2, ER(e2, ex.live, "", "D", e2.st))
 
 Events == { [a |-> x, dq |-> 0, dp |-> 0] : x \in (ClientActs \ {"c_replace"}) \cup {"e_recv"} \cup ExchSteps }
-          \cup { [a |-> "c_replace", dq |-> dq, dp |-> dp] : dq \in {-1, 0, 1}, dp \in {0, 1} }
+          \cup { [a |-> "c_replace", dq |-> dq, dp |-> dp] : dq \in {-1, 0, 1}, dp \in {-1, 0, 1} }
 
 (* ------------------------------- C17 clauses ------------------------------- *)
 \* over a system state x (model) and the client object c under judgement (the model's own, or the real one's projection)
